@@ -36,16 +36,25 @@ def exhaustive(ctx, out):
         for ticks in itertools.combinations(grid[1:], k - 1):
             tempo = [(0, ns[0])] + [(t, ns[(i + 1) % 3]) for i, t in enumerate(ticks)]
             maps_.append(tempo)
+    rng = ctx.sub("maps")
+    # long maps too (scan-length dependent behaviour): 10–40 tempo events
+    for k in ([12, 25] if ctx.tier == "quick" else [10, 11, 12, 16, 20, 25, 33, 40] * 3):
+        t, tempo = 0, []
+        for i in range(k):
+            tempo.append((t, rng.choice([120000, 60000, 90000, 150000])))
+            t += rng.randint(1, 9)
+        maps_.append(tempo)
     if ctx.tier == "thorough":
-        rng = ctx.sub("maps")
         for _ in range(3000):
             maps_.append(C01.rand_map(rng, 8)[1])
     reqs, meta = [], []
     for tempo in maps_:
         be = C01.build_bpm_events(res, tempo)
         last = tempo[-1][0]
-        for tick in list(range(-1, min(last, 10) + 3)) + [last, last + 1, last + 100]:
-            for h in range(0, len(tempo) + 2):
+        for tick in list(range(-1, min(last, 10) + 3)) + [last - 1, last, last + 1, last + 100]:
+            for h in (range(0, len(tempo) + 2) if len(tempo) <= 6 else [0, 1, 2, len(tempo) - 10, len(tempo) - 9, len(tempo) - 2, len(tempo) - 1, len(tempo)]):
+                if h < 0:
+                    continue
                 try:
                     ts, idx = be.timestamp_at_tick(tick, start_iteration_index=h)
                     i = f"{ts // US} {idx}"
